@@ -80,6 +80,14 @@ func aliasForType(t types.Type, names map[string]string) (string, bool) {
 	if n, ok := names[ts]; ok {
 		return n, true
 	}
+	// a large value handed to an unexported helper by pointer instead of by value plays the same role
+	if pt, ok := t.Underlying().(*types.Pointer); ok {
+		if _, isStruct := pt.Elem().Underlying().(*types.Struct); isStruct {
+			if n, ok := names[types.TypeString(pt.Elem(), func(pk *types.Package) string { return pk.Name() })]; ok {
+				return n, true
+			}
+		}
+	}
 	if isSigReqType(t) {
 		if n, ok := names["saml.signatureRequirement"]; ok {
 			return n, true
@@ -421,6 +429,42 @@ func checkReturned(r *Report, m *spModel, rule string) {
 			}
 		}
 	}
+	// ... or are kept in a single variable instead of a list (the first one that validated): every assignment of the
+	// variable is the value the assertion parser returned, under err == nil, and the success return needs at least one
+	// success of the parser
+	firstVar := map[*ssa.Alloc]bool{}
+	if n == 0 {
+		for _, b := range rf.Blocks {
+			for _, in := range b.Instrs {
+				st, ok := in.(*ssa.Store)
+				if !ok {
+					continue
+				}
+				al, ok := st.Addr.(*ssa.Alloc)
+				if !ok || !typeIs(al.Type().Underlying().(*types.Pointer).Elem(), modPath, "Assertion") {
+					continue
+				}
+				if c, isC := st.Val.(*ssa.Const); isC && c.Value == nil {
+					continue // the zero value the variable starts with
+				}
+				n++
+				firstVar[al] = true
+				cons := fmt.Sprintf("%s: assertion kept as the result", p.FnName(rf))
+				okA := false
+				if ld, ok := st.Val.(*ssa.UnOp); ok && ld.Op == token.MUL {
+					if ex, ok := ld.X.(*ssa.Extract); ok && ex.Index == 0 {
+						if call, ok := ex.Tuple.(*ssa.Call); ok {
+							if sc := call.Call.StaticCallee(); sc != nil && fam[sc] {
+								name := "isnil(" + rc.AP(call) + "#1)"
+								okA = B.HasVar(name) && rc.Implied(b, B.Var(name))
+							}
+						}
+					}
+				}
+				r.Check(okA, rule, cons, p.InstrPos(in), "value of the assertion parser under err == nil", "an assertion becomes the result without having been returned by the assertion parser with a nil error")
+			}
+		}
+	}
 	if n == 0 {
 		r.Undecided(rule, p.FnName(rf)+": result list", p.Pos(rf.Pos()), "no append of an Assertion found in the response parser")
 	}
@@ -454,6 +498,19 @@ func checkReturned(r *Report, m *spModel, rule string) {
 					}
 				}
 			}
+		}
+		if al, isA := v.(*ssa.Alloc); isA && !isIdx && firstVar[al] {
+			// the variable was assigned: the return is not reachable unless some call of the parser succeeded
+			need := rc.Cond(ret.Block())
+			for _, nm := range B.Support(need) {
+				for fm := range fam {
+					if strings.Contains(nm, "isnil(r:"+shortFn(fm)+"#") && strings.Contains(nm, "#1)") {
+						need = B.Restrict(need, nm, false)
+					}
+				}
+			}
+			r.Check(need == B.False, rule, fmt.Sprintf("%s: success return is the assertion that validated", p.FnName(rf)), p.InstrPos(ret), rc.AP(v), "the response parser can return its result variable although no call of the assertion parser succeeded (an empty assertion)")
+			continue
 		}
 		r.Check(isIdx && strings.Contains(rc.AP(v), "append#") || isIdx, rule, fmt.Sprintf("%s: success return is an element of the validated list", p.FnName(rf)), p.InstrPos(ret), rc.AP(v), "the response parser returns something other than an element of the list of validated assertions")
 	}
